@@ -1,2 +1,166 @@
-(* Props/C20.v — placeholder while the proofs are being written *)
-From Eino Require Import Base.Util Model.Builder.
+(* Props/C20.v — property C20: ill-formed constructions are rejected with an error and
+   never a panic, at any position of any call sequence; the first build error sticks;
+   after a successful Compile the builder cannot be modified and the runnable obtained
+   is unaffected by every later call, including another Compile.
+   The statements are about the executable model Model/Builder.v (version [fixed] = the
+   tree after the repairs F-C20a..d); determinism is by construction: every step is a
+   function of the state and the call, and the one place where Go iterates a map with an
+   observable effect (Workflow.compile) takes the order as an argument [ord] over which
+   the theorems quantify.  Only statements, each closed by [exact]. *)
+From Eino Require Import Base.Util Model.Builder Proofs.Builder Proofs.BuilderReject Proofs.BuilderDag.
+Local Open Scope string_scope.
+Local Open Scope list_scope.
+
+(* ------------------------------------------------------------------ first_error_sticks *)
+(* Graph: after an Add* call failed with a build error, every later call (Add* or Compile,
+   any version) returns that same error and the builder state no longer changes.
+   Chain / Workflow (Add* calls cannot return errors): once the deferred error is set,
+   every Compile of every later call sequence returns it; a Workflow's graph is unchanged. *)
+Theorem first_error_sticks :
+  (forall v g c g' e cs,
+      is_add c = true -> gstep v g c = (g', OErr e) -> e <> ECompiled ->
+      run_calls (gstep v) g' cs = (g', map (fun _ => OErr e) cs))
+  /\ (forall c e cs,
+      c_err c = Some e ->
+      c_err (fst (run_calls (cstep fixed) c cs)) = Some e /\
+      Forall2 (fun call o => c_is_compile call = true -> o = OErr e) cs (snd (run_calls (cstep fixed) c cs)))
+  /\ (forall w e cs,
+      g_err (w_g w) = Some e ->
+      w_g (fst (run_calls (wstep fixed) w cs)) = w_g w /\
+      Forall2 (fun call o => w_is_compile call = true -> o = OErr e) cs (snd (run_calls (wstep fixed) w cs))).
+Proof. exact (conj graph_first_error_sticks (conj chain_first_error_sticks workflow_first_error_sticks)). Qed.
+Print Assumptions first_error_sticks.
+
+Example first_error_sticks_nonvacuous :
+  run_calls (gstep fixed) (g_init CGraph false)
+    [GAddNode "a" NLambda false false; GAddNode "a" NLambda false false; GAddEdge START "a"; GCompile opt_default]
+  = (set_err (Some EDupNode) (set_nodes [("a", mkNode NLambda true true)] (g_init CGraph false)),
+     [OOk; OErr EDupNode; OErr EDupNode; OErr EDupNode]).
+Proof. vm_compute. reflexivity. Qed.
+
+(* ------------------------------------------------------------------ rejects_each_kind *)
+(* For every state (hence at any position of any sequence) and every kind of ill-formedness
+   the property lists, the outcome is an error:
+   1. Graph Add* calls ([gviolation]: reserved / duplicate node key, state handler without
+      state, node-key option outside a chain, END as start, START as end, unknown edge start
+      / end, duplicate edge, branch from END / from an unknown node, single-target branch,
+      unknown branch target);
+   2. Compile ([gill]: no entry, no exit, un-inferable pass-through edge or node, duplicate
+      mapping target, trigger mode on a chain / workflow, invalid sub graph, cycle in
+      all-predecessor mode, max steps in DAG mode);
+   3. a cycle (through edges or branches) really is rejected in all-predecessor mode;
+   4. Chain: the violation ([cviolation]) is reported by every later Compile;
+   5. Workflow: a bad AddNode is recorded in the build error; a branch to a node that was
+      never added makes Compile fail (F-C20a: it panicked);
+   6. and no call of any front-end has the panic outcome. *)
+Theorem rejects_each_kind :
+  (forall v g c, gviolation g c -> is_err (snd (gstep v g c)))
+  /\ (forall g o, gill g o -> is_err (snd (g_compile fixed g o)))
+  /\ (forall g o, dag_mode g o = true -> has_cycle g -> is_err (snd (g_compile fixed g o)))
+  /\ (forall c call cs, cviolation c call ->
+        exists e, Forall2 (fun k o => c_is_compile k = true -> o = OErr e) cs
+                          (snd (run_calls (cstep fixed) (fst (cstep fixed c call)) cs)))
+  /\ (forall w k nk ns, g_compiled (w_g w) = false ->
+        is_se k = true \/ has_node (w_g w) k = true \/ (ns = true /\ g_state (w_g w) = false) ->
+        g_err (w_g (fst (wstep fixed w (WAddNode k nk ns)))) <> None)
+  /\ (forall w o ord, existsb (bad_branch w) (w_branches w) = true -> is_err (snd (w_compile fixed w o ord)))
+  /\ (forall g c, snd (gstep fixed g c) <> OPanic)
+  /\ (forall c call, snd (cstep fixed c call) <> OPanic)
+  /\ (forall w call, snd (wstep fixed w call) <> OPanic).
+Proof.
+  exact (conj graph_rejects_add (conj compile_rejects (conj compile_rejects_cycle (conj chain_rejects_at_compile
+        (conj workflow_rejects_node (conj workflow_rejects_unknown_branch_target
+        (conj gstep_no_panic (conj cstep_no_panic wstep_no_panic)))))))).
+Qed.
+Print Assumptions rejects_each_kind.
+
+Example rejects_cycle_nonvacuous :
+  snd (run_calls (gstep fixed) (g_init CGraph false)
+    [GAddNode "a" NLambda false false; GAddNode "b" NLambda false false; GAddEdge START "a";
+     GAddEdge "a" "b"; GAddEdge "b" "a"; GAddEdge "b" END_;
+     GCompile (mkOpt (Some true) 0%Z); GCompile opt_default])
+  = [OOk; OOk; OOk; OOk; OOk; OOk; OErr EDagLoop;
+     OCompiled (mkR [("a", NLambda); ("b", NLambda)]
+                    [(START, "a"); ("a", "b"); ("b", "a"); ("b", END_)]
+                    [(START, "a"); ("a", "b"); ("b", "a"); ("b", END_)] [] false false 12%Z (Some []))].
+Proof. vm_compute. reflexivity. Qed.
+
+(* ------------------------------------------------------------------ no_modification_after_compile *)
+(* After a successful Compile: a Graph refuses every Add* with the compiled error and no
+   call changes its state; no call changes a Chain's graph, and an Append* is answered by
+   the next Compile; no call changes anything of a Workflow's graph except that a build
+   error may still be recorded. *)
+Theorem no_modification_after_compile :
+  (forall g c, g_compiled g = true -> g_err g = None -> is_add c = true -> gstep fixed g c = (g, OErr ECompiled))
+  /\ (forall g cs, g_compiled g = true -> final (gstep fixed) g cs = g)
+  /\ (forall cs c, g_compiled (c_g c) = true -> c_g (final (cstep fixed) c cs) = c_g c)
+  /\ (forall c nk key ns, g_compiled (c_g c) = true -> c_err (c_append c nk key ns) <> None)
+  /\ (forall cs w, g_compiled (w_g w) = true -> core (w_g (final (wstep fixed) w cs)) = core (w_g w)).
+Proof.
+  exact (conj compiled_add_refused (conj compiled_grun (conj compiled_crun
+        (conj compiled_append_reported compiled_wrun)))).
+Qed.
+Print Assumptions no_modification_after_compile.
+
+(* ------------------------------------------------------------------ runner_unaffected *)
+(* The runner returned by a successful Compile computes with the same data after every
+   later sequence of calls (including further Compiles): its view — own fields plus
+   everything it reads through references shared with the builder — is the same value. *)
+Theorem runner_unaffected :
+  (forall g o g1 r cs, gstep fixed g (GCompile o) = (g1, OCompiled r) ->
+      runner_view (final (gstep fixed) g1 cs) r = runner_view g1 r)
+  /\ (forall c o c1 r cs, cstep fixed c (CCompile o) = (c1, OCompiled r) ->
+      runner_view (c_g (final (cstep fixed) c1 cs)) r = runner_view (c_g c1) r)
+  /\ (forall w o ord w1 r cs, wstep fixed w (WCompile o ord) = (w1, OCompiled r) ->
+      runner_view (w_g (final (wstep fixed) w1 cs)) r = runner_view (w_g w1) r).
+Proof. exact (conj graph_runner_unaffected (conj chain_runner_unaffected workflow_runner_unaffected)). Qed.
+Print Assumptions runner_unaffected.
+
+Example runner_unaffected_nonvacuous :
+  match first_runner fixed with
+  | Some (w1, r) =>
+      rv_prenode (runner_view (w_g w1) r) = ["a"] /\
+      rv_prenode (runner_view (w_g (fst (wstep fixed w1 (WCompile opt_default [])))) r) = ["a"]
+  | None => False
+  end.
+Proof. exact wf_compile_twice_fixed. Qed.
+
+(* ------------------------------------------------------------------ compile_sound (stretch) *)
+(* What Compile accepts is well formed: the build error is unset, there is an entry and an
+   exit, every edge could be type-checked and every node has a type, no mapping target is
+   duplicated, the option combination is valid, and in all-predecessor mode the control
+   graph (edges and branches) has a topological order: an enumeration of all nodes in
+   which every node comes after all its non-START control predecessors. *)
+Theorem compile_sound : forall g o g' r,
+  g_compile fixed g o = (g', OCompiled r) -> well_formed g o.
+Proof. exact compile_accepts_well_formed. Qed.
+Print Assumptions compile_sound.
+
+Theorem validateDAG_sound : forall g,
+  validate_dag g = true -> exists order, topological (ctrl_pairs g) (map fst (g_nodes g)) order.
+Proof. exact validate_dag_sound. Qed.
+Print Assumptions validateDAG_sound.
+
+(* ------------------------------------------------------------------ the repaired defects *)
+(* F-C20a: on the original code a Workflow branch to a node that was never added made
+   Compile panic: "never a panic" is false for version v0. *)
+Theorem never_panics_v0_refuted :
+  ~ (forall w call, snd (wstep v0 w call) <> OPanic).
+Proof. exact never_panics_v0_false. Qed.
+
+(* F-C20b: on the original code a second Compile changed what the first runner computes with *)
+Theorem runner_unaffected_v0_refuted :
+  ~ (forall w o ord w1 r cs, wstep v0 w (WCompile o ord) = (w1, OCompiled r) ->
+      runner_view (w_g (final (wstep v0) w1 cs)) r = runner_view (w_g w1) r).
+Proof. exact runner_unaffected_v0_false. Qed.
+
+(* F-C20c: an unconnected pass-through node made Graph.Compile panic *)
+Theorem uninferable_node_panics_v0_refuted :
+  ~ (forall g c, snd (gstep v0 g c) <> OPanic).
+Proof. exact gstep_panics_v0. Qed.
+
+(* F-C20d: a Chain dropped its deferred error after a failed Compile attempt *)
+Theorem chain_error_sticks_v0_refuted :
+  ~ (forall c e cs, c_err c = Some e ->
+       Forall2 (fun call o => c_is_compile call = true -> o = OErr e) cs (snd (run_calls (cstep v0) c cs))).
+Proof. exact chain_sticks_v0_false. Qed.
